@@ -76,9 +76,12 @@ def main():
             man["not_applicable"].append({"property_id": pid, "reason": NOT_BUILT})
     with open(os.path.join(HERE, "MANIFEST.json"), "w") as f:
         json.dump(man, f, indent=1)
-    import jsonschema
+    import sys
+    sys.path.insert(0, HERE)
+    from mc.report import validate_json
 
-    jsonschema.validate(man, json.load(open("/root/.vp/MANIFEST.schema.json")))
+    err = validate_json(os.path.join(HERE, "MANIFEST.json"), "/root/.vp/MANIFEST.schema.json")
+    assert not err, err
     print("MANIFEST.json: %d checks, %d not claimed" % (len(man["checks"]), len(man["not_applicable"])))
 
 
